@@ -10,7 +10,14 @@ for m in sys.argv[2:]:
         print('NOT VERIFIED', m, v); continue
     dst = os.path.join('/verif/seeded', m.replace('/', '-'))
     os.makedirs(dst, exist_ok=True)
-    shutil.copy(os.path.join(d, 'patch.diff'), dst)
+    src_patch = os.path.join(d, 'patch.diff')
+    if os.path.getsize(src_patch) > 200_000:
+        # whole regenerated python.rs: stored compressed
+        import gzip
+        with open(src_patch, 'rb') as fi, gzip.open(os.path.join(dst, 'patch.diff.gz'), 'wb', 9) as fo:
+            fo.write(fi.read())
+    else:
+        shutil.copy(src_patch, dst)
     shutil.copy(os.path.join(d, 'run_demo.sh'), dst)
     if os.path.exists(os.path.join(dst, 'demo')): shutil.rmtree(os.path.join(dst, 'demo'))
     shutil.copytree(os.path.join(d, 'demo'), os.path.join(dst, 'demo'), ignore=shutil.ignore_patterns('target', 'Cargo.lock'))
